@@ -617,3 +617,73 @@ def _mk_select(shape, how):
 for _shape in (("list", "list", "list"), ("tuple", "none", "list"), ("set1", "tuple", "none"), ("list", "none", "tuple")):
   for _how in ("positional", "keyword", "absent"):
     _mk_select(_shape, _how)
+
+
+# ---------------------------------------------------------------- Timer.__init__ / start: the delay counts from the START
+# (added 2026-09-25 after seeded change C06_9 converted the relative delay into an absolute deadline at construction: a timer
+# created with started=False and started later then fired early - at once, if the delay had already passed)
+
+class ClockSpec(CallSpec):
+  """time.time(): t_construct for the calls made while the timer is constructed, t_start from start() on (the harness flips)"""
+  def __init__(self, times):
+    CallSpec.__init__(self, "assumed", envelope="clock: does not go backwards between construction and start")
+    self.times = times
+
+  def apply(self, I, f, args, kws, st, ctx, k, node):
+    return k(st, self.times[st.ghost.get("clock_phase", 0)])
+
+
+class _Phase(object):
+  @native
+  def set(self, st, n):
+    st.ghost["clock_phase"] = n
+    return None
+
+
+PHASE = _Phase()
+_NATIVE_CLOCK = [0.0]
+
+
+def _mk_timer_start(kind):
+  def u(b):
+    t0 = b.real("constructed_at", 0, 1000000)
+    wait = b.real("started_after", 0, 100000)
+    delay = b.real("delay", 0, 100000)
+    t1 = t0 + wait
+    s, hub = new_sched(b, [])
+    box = b.raw_new(Fired, calls=0, rv=None)
+    sym = b.mode == "sym"
+    cs = {}
+    if sym:
+      cs = {"time:time": ClockSpec([t0, t1]),
+            "contracts.c06_scheduler:Hub.break_idle": Logger("break_idle", "wakes the select hub")}
+    def run():
+      if sym:
+        PHASE.set(0)
+      else:
+        R.time.time = lambda: t0
+      if kind == "relative":
+        t = Timer(delay, timer_callback, args=(box,), scheduler=s, started=False)
+      elif kind == "recurring":
+        t = Timer(delay, timer_callback, recurring=True, args=(box,), scheduler=s, started=False)
+      else:
+        t = Timer(delay, timer_callback, absoluteTime=True, args=(box,), scheduler=s, started=False)
+      if sym:
+        PHASE.set(1)
+      else:
+        R.time.time = lambda: t1
+      t.start(s)
+      y = next(t.run())
+      return (y._t, t._started, [x for x in s._ready], box.calls, t)
+    return Case(run, [], calls=cs, raises={}, ensures={
+      "the_first_deadline_is_the_delay_after_the_START_or_the_given_absolute_time":
+        lambda res: res[0] == (delay if kind == "absolute" else t1 + delay),
+      "it_is_started_and_nothing_has_fired_yet": lambda res: res[1] is True and res[3] == 0,
+    })
+  u.__name__ = "timer_%s_started_later_counts_its_delay_from_the_start" % kind
+  u.bound = "one timer constructed with started=False and started after any wait"
+  unit(P, target=RC + "Timer.__init__ / Timer.start / Timer.run")(u)
+
+
+for _k in ("relative", "recurring", "absolute"):
+  _mk_timer_start(_k)
